@@ -1,6 +1,7 @@
 package main
 
 import (
+	"slices"
 	"encoding/json"
 	"flag"
 	"fmt"
@@ -37,6 +38,8 @@ type CheckCfg struct {
 	Bounds         map[string]string `json:"bounds"`
 	Workers        int      `json:"workers"`
 	EagerSSA       bool     `json:"eager_ssa"` // build all SSA before exploring (see load.go)
+	SchedGlobals   bool     `json:"sched_globals"` // direct loads/stores of the package under test's package-level variables are scheduling points (see extern_st2-hpack.go)
+	PoolReuse      []string `json:"pool_reuse"` // harness names that run with the adversarial sync.Pool: Get returns any object Put earlier on the path, or New() (forked); default: always New()
 	ConcIndexMax   int      `json:"concretize_index_max"` // symbolic indices into slices/arrays of at most this many cells are forked over instead of merged
 }
 
@@ -282,7 +285,7 @@ func cmdCheck(args []string) int {
 	var results []*HarnessResult
 	for _, fn := range fns {
 		h := &Harness{Name: fn.Name(), Prop: id, Pkg: fnPkg[fn.Name()], Tier: tierN, MapOrderMax: cfg.MapOrderMax, MaxThreads: cfg.MaxThreads,
-			MaxSchedPoints: cfg.MaxSchedPoints, MaxDecisions: cfg.MaxDecisions, KnownActive: knownActive, ConcIndexMax: cfg.ConcIndexMax}
+			MaxSchedPoints: cfg.MaxSchedPoints, MaxDecisions: cfg.MaxDecisions, KnownActive: knownActive, ConcIndexMax: cfg.ConcIndexMax, SchedGlobals: cfg.SchedGlobals, PoolReuse: slices.Contains(cfg.PoolReuse, fn.Name())}
 		if h.MaxThreads == 0 {
 			h.MaxThreads = 8
 		}
